@@ -18,13 +18,18 @@ import (
 	"go/ast"
 	"go/parser"
 	"go/token"
+	"os"
 	"path/filepath"
 	"sort"
 	"strconv"
 	"strings"
 
+	"github.com/ontio/ontology-crypto/keypair"
 	"github.com/ontio/ontology/account"
 	"github.com/ontio/ontology/common"
+	"github.com/ontio/ontology/common/config"
+	"github.com/ontio/ontology/core/genesis"
+	"github.com/ontio/ontology/core/signature"
 	"github.com/ontio/ontology/core/store/ledgerstore"
 	"github.com/ontio/ontology/core/types"
 
@@ -48,6 +53,7 @@ type History struct {
 	Kind  string `json:"kind"`
 	NTx   []int  `json:"ntx"`             // transactions of source block i+1
 	Steps []Step `json:"steps"`           // applied to the second ledger
+	Keys  int    `json:"keys,omitempty"`  // number of bookkeepers (0 = solo chain: one key, one signature)
 	Marks []int  `json:"marks,omitempty"` // transaction positions probed by hash in big blocks
 }
 
@@ -86,7 +92,10 @@ func txBytes(t *types.Transaction) []byte {
 }
 
 func coqHeader(h *types.Header) string {
-	return fmt.Sprintf("(H %d %d %d)", id64(h.Hash()), h.Height, digest(headerBytes(h)))
+	if len(h.Bookkeepers) == 1 && len(h.SigData) == 1 {
+		return fmt.Sprintf("(H %d %d %d)", id64(h.Hash()), h.Height, digest(headerBytes(h)))
+	}
+	return fmt.Sprintf("(HS %d %d %d %d %d)", id64(h.Hash()), h.Height, digest(headerBytes(h)), len(h.Bookkeepers), len(h.SigData))
 }
 
 func coqTxPair(t *types.Transaction) string {
@@ -109,14 +118,14 @@ func coqBlock(b *types.Block) string {
 			}
 		}
 		if ok {
-			return fmt.Sprintf("(BG %d %d %d %d %d %d)", id64(b.Hash()), b.Header.Height, digest(headerBytes(b.Header)), hb, db, n)
+			return fmt.Sprintf("(BGH %s %d %d %d)", coqHeader(b.Header), hb, db, n)
 		}
 	}
 	var txs []string
 	for _, t := range b.Transactions {
 		txs = append(txs, coqTxPair(t))
 	}
-	return fmt.Sprintf("(B %d %d %d %s)", id64(b.Hash()), b.Header.Height, digest(headerBytes(b.Header)), hx.CoqList(txs))
+	return fmt.Sprintf("(BH %s %s)", coqHeader(b.Header), hx.CoqList(txs))
 }
 
 // registerBig gives the transactions of a big block consecutive ids (hashes, then digests).
@@ -166,8 +175,9 @@ type runner struct {
 	segs   []string
 	c0     string
 	nq     int
-	recBig map[int]bool // bigtx histories: the big blocks whose by-height/by-hash answers go into the Coq case
-	marks  []int        // transaction positions probed in big blocks (boundaries read from the source)
+	accts  []*account.Account // multi-bookkeeper chains: the bookkeepers, in sorted key order
+	recBig map[int]bool       // bigtx histories: the big blocks whose by-height/by-hash answers go into the Coq case
+	marks  []int              // transaction positions probed in big blocks (boundaries read from the source)
 }
 
 func (r *runner) store() *ledgerstore.LedgerStoreImp { return r.k.Store() }
@@ -310,6 +320,11 @@ func (r *runner) checkpoint(all bool) string {
 			hdrTerm = "(Some " + coqHeader(hd) + ")"
 		}
 		qs = append(qs, fmt.Sprintf("QK %d %s %s %s", id64(k), blkTerm, hdrTerm, hx.CoqBool(st.VerifHeaderCached(k))))
+		rawTerm := "None"
+		if rh, err := st.GetRawHeaderByHash(k); err == nil && rh != nil {
+			rawTerm = fmt.Sprintf("(Some (%d, %d))", rh.Height, digest(rh.Payload))
+		}
+		qs = append(qs, fmt.Sprintf("QR %d %s", id64(k), rawTerm))
 		probe := map[int]bool{}
 		if n := len(b.Transactions); n > bigBlock {
 			for _, m := range append([]int{0, n - 1}, r.marks...) {
@@ -395,6 +410,17 @@ func (r *runner) oracle(h uint32, got common.Uint256, blk *types.Block, err erro
 		r.fail("query:header-by-hash", "GetHeaderByHash(hash) returns a different header",
 			map[string]interface{}{"height": h, "header": hx.Hex(headerBytes(hd))}, hx.Hex(headerBytes(want.Header)))
 	}
+	rh, err := st.GetRawHeaderByHash(wh)
+	if err != nil || rh == nil {
+		r.fail("query:raw-header-by-hash", "GetRawHeaderByHash(hash) does not return the committed header",
+			map[string]interface{}{"height": h, "err": fmt.Sprint(err), "bookkeepers": len(want.Header.Bookkeepers), "signatures": len(want.Header.SigData), "transactions": len(want.Transactions)}, "the committed header")
+	} else if !bytes.Equal(rh.Payload, headerBytes(want.Header)) || rh.Height != h {
+		r.fail("query:raw-header-by-hash", "GetRawHeaderByHash(hash) returns other bytes than the committed header",
+			map[string]interface{}{"height": h, "payload_len": len(rh.Payload), "bookkeepers": len(want.Header.Bookkeepers), "signatures": len(want.Header.SigData)}, map[string]interface{}{"payload_len": len(headerBytes(want.Header))})
+	}
+	if bh != nil && hd != nil && !bytes.Equal(headerBytes(bh.Header), headerBytes(hd)) {
+		r.fail("query:header-vs-block", "GetHeaderByHash(hash) and the header of GetBlockByHash(hash) differ", map[string]interface{}{"height": h}, "equal")
+	}
 	hh, err := st.GetHeaderByHeight(h)
 	if err != nil || hh == nil {
 		r.fail("query:header-by-height", "GetHeaderByHeight(height) does not return the committed header",
@@ -440,6 +466,83 @@ func statusOf(err error, changed bool) string {
 	return "Ignored"
 }
 
+// newMultiKit: a ledger whose genesis names several bookkeepers (non-VBFT rule: a header needs
+// m = n-(n-1)/3 signatures of the n bookkeepers). accts must be in sorted key order.
+func newMultiKit(dir string, accts []*account.Account) (*ledgerkit.Kit, error) {
+	if err := os.RemoveAll(dir); err != nil {
+		return nil, err
+	}
+	ledgerkit.ConfigureSolo(accts[0])
+	var bks []keypair.PublicKey
+	for _, a := range accts {
+		bks = append(bks, a.PublicKey)
+	}
+	gb, err := genesis.BuildGenesisBlock(bks, config.DefConfig.Genesis)
+	if err != nil {
+		return nil, err
+	}
+	k := &ledgerkit.Kit{Dir: dir, Acct: accts[0], Bookkeepers: bks, Genesis: gb}
+	return k, k.Open()
+}
+
+func sortedAccounts(n int) []*account.Account {
+	var accts []*account.Account
+	for i := 0; i < n; i++ {
+		accts = append(accts, account.NewAccount(""))
+	}
+	sort.Slice(accts, func(i, j int) bool {
+		return bytes.Compare(keypair.SerializePublicKey(accts[i].PublicKey), keypair.SerializePublicKey(accts[j].PublicKey)) < 0
+	})
+	var pks []keypair.PublicKey
+	for _, a := range accts {
+		pks = append(pks, a.PublicKey)
+	}
+	sorted := keypair.SortPublicKeys(pks)
+	out := make([]*account.Account, 0, n)
+	for _, pk := range sorted {
+		for _, a := range accts {
+			if bytes.Equal(keypair.SerializePublicKey(a.PublicKey), keypair.SerializePublicKey(pk)) {
+				out = append(out, a)
+			}
+		}
+	}
+	return out
+}
+
+// multiSign replaces the single signature ledgerkit put on the block: all n bookkeepers are listed,
+// m = n-(n-1)/3 of them sign (a window of the key list that moves with the height); every third
+// height is over-signed by all n.
+func multiSign(b *types.Block, accts []*account.Account) {
+	n := len(accts)
+	m := n - (n-1)/3
+	off := int(b.Header.Height) % (n - m + 1)
+	cnt := m
+	if b.Header.Height%3 == 0 {
+		off, cnt = 0, n
+	}
+	h := b.Hash()
+	b.Header.Bookkeepers = nil
+	b.Header.SigData = nil
+	for _, a := range accts {
+		b.Header.Bookkeepers = append(b.Header.Bookkeepers, a.PublicKey)
+	}
+	for _, a := range accts[off : off+cnt] {
+		sig, err := signature.Sign(a, h[:])
+		if err != nil {
+			panic(err)
+		}
+		b.Header.SigData = append(b.Header.SigData, sig)
+	}
+}
+
+// sign signs a block built by the runner the way the chain requires.
+func (r *runner) sign(b *types.Block) {
+	r.k.SignBlock(b)
+	if len(r.accts) > 0 {
+		multiSign(b, r.accts)
+	}
+}
+
 // competitor builds a correctly signed header for the height of source block idx that differs from
 // it (consensus data), on top of prev.
 func (r *runner) competitor(idx int, prev common.Uint256) *types.Header {
@@ -447,7 +550,7 @@ func (r *runner) competitor(idx int, prev common.Uint256) *types.Header {
 	fork := &types.Block{Header: &types.Header{Version: o.Version, PrevBlockHash: prev, TransactionsRoot: o.TransactionsRoot,
 		BlockRoot: o.BlockRoot, Timestamp: o.Timestamp, Height: o.Height, ConsensusData: o.ConsensusData + 77 + uint64(r.nq),
 		ConsensusPayload: o.ConsensusPayload, NextBookkeeper: o.NextBookkeeper}, Transactions: r.src[idx].Transactions}
-	r.k.SignBlock(fork)
+	r.sign(fork)
 	return fork.Header
 }
 
@@ -497,7 +600,7 @@ func (r *runner) step(s Step) {
 		} else {
 			r.cur++
 		}
-		if status == "Added" && len(b.Transactions) == 0 && int(b.Header.Height) == r.cur {
+		if status == "Added" && len(b.Transactions) == 0 && int(b.Header.Height) == r.cur && len(b.Header.Bookkeepers) == 1 && len(b.Header.SigData) == 1 {
 			r.run = append(r.run, fmt.Sprintf("(%d,%d)", id64(b.Hash()), digest(headerBytes(b.Header))))
 		} else {
 			r.addOp(fmt.Sprintf("XCommit %s %s", coqBlock(b), status))
@@ -589,9 +692,17 @@ func runHistory(c *hx.Ctx, hist History, tag string) {
 	dirB := filepath.Join(c.OutDir, "chain-dst")
 	var src []*types.Block
 	var acct *account.Account
+	var accts []*account.Account
 	// ---- source chain ----
 	panicked, msg := hx.Recover(func() {
-		ka, err := ledgerkit.New(dirA)
+		var ka *ledgerkit.Kit
+		var err error
+		if hist.Keys > 1 {
+			accts = sortedAccounts(hist.Keys)
+			ka, err = newMultiKit(dirA, accts)
+		} else {
+			ka, err = ledgerkit.New(dirA)
+		}
 		ledgerkit.Must(err)
 		defer ka.Close()
 		acct = ka.Acct
@@ -600,12 +711,24 @@ func runHistory(c *hx.Ctx, hist History, tag string) {
 		for _, n := range hist.NTx {
 			var txs []*types.Transaction
 			for j := 0; j < n; j++ {
-				tx, err := ka.TransferTx(ledgerkit.OntAddr, ka.Acct, to.Address, 1, 0, 20000)
+				var tx *types.Transaction
+				if len(accts) > 0 {
+					// the genesis ONT belongs to the multi-signature address: use tiny unsigned invocations
+					m := ka.InvokeTx([]byte{0x51}, 0, 20000)
+					m.Payer = ka.Acct.Address
+					tx, err = m.IntoImmutable()
+				} else {
+					tx, err = ka.TransferTx(ledgerkit.OntAddr, ka.Acct, to.Address, 1, 0, 20000)
+				}
 				ledgerkit.Must(err)
 				txs = append(txs, tx)
 			}
-			b, err := ka.AddBlock(txs)
+			b, err := ka.MakeBlock(txs)
 			ledgerkit.Must(err)
+			if len(accts) > 0 {
+				multiSign(b, accts)
+			}
+			ledgerkit.Must(ka.AddMadeBlock(b))
 			registerBig(b)
 			src = append(src, b)
 		}
@@ -615,7 +738,7 @@ func runHistory(c *hx.Ctx, hist History, tag string) {
 		return
 	}
 	// ---- replay on the second ledger ----
-	r := &runner{c: c, hist: hist, src: src, recBig: map[int]bool{}, marks: hist.Marks}
+	r := &runner{c: c, hist: hist, src: src, accts: accts, recBig: map[int]bool{}, marks: hist.Marks}
 	// record (in the Coq case) the last four big blocks; the oracle visits all of them
 	for h, k := len(src)-1, 0; h >= 1 && k < 4; h-- {
 		if len(src[h].Transactions) > bigBlock {
@@ -624,7 +747,13 @@ func runHistory(c *hx.Ctx, hist History, tag string) {
 		}
 	}
 	panicked, msg = hx.Recover(func() {
-		kb, err := ledgerkit.NewWithAccount(dirB, acct)
+		var kb *ledgerkit.Kit
+		var err error
+		if len(accts) > 0 {
+			kb, err = newMultiKit(dirB, accts)
+		} else {
+			kb, err = ledgerkit.NewWithAccount(dirB, acct)
+		}
 		ledgerkit.Must(err)
 		r.k = kb
 		defer func() { r.k.Close() }()
@@ -725,6 +854,21 @@ func genSmall(c *hx.Ctx, n, maxTx int) History {
 		}
 	}
 	h.Steps = append(h.Steps, Step{Op: "check", All: true}, Step{Op: "reopen"}, Step{Op: "forkheader"}, Step{Op: "check", All: true})
+	return h
+}
+
+// genMulti: a chain whose headers list nkeys bookkeepers and carry m = n-(n-1)/3 signatures (all n
+// on every third height), blocks of 0..8 transactions, long enough that the first blocks leave the
+// block cache; random script as for the small histories.
+func genMulti(c *hx.Ctx, nkeys int) History {
+	h := genSmall(c, int(ledgerstore.BLOCK_CAHE_SIZE)+3+c.Intn(4), 8)
+	h.Kind = "multi"
+	h.Keys = nkeys
+	for i := range h.NTx {
+		if i%2 == 0 && h.NTx[i] < 3 {
+			h.NTx[i] = 3 + c.Intn(6)
+		}
+	}
 	return h
 }
 
@@ -931,6 +1075,9 @@ func Run(c *hx.Ctx) {
 	}
 	for i := 0; i < c.N(2, 12); i++ {
 		runHistory(c, genRival(c, int(ledgerstore.BLOCK_CAHE_SIZE)+6+c.Intn(6)), fmt.Sprintf("rival%d", i))
+	}
+	for i := 0; i < c.N(2, 8); i++ {
+		runHistory(c, genMulti(c, []int{4, 7}[i%2]), fmt.Sprintf("multi%d", i))
 	}
 	runHistory(c, genBigTx(c), "bigtx0")
 	win := int(ledgerstore.HEADER_INDEX_MAX_SIZE)
